@@ -399,7 +399,9 @@ def loop(n, via, flags, cluster_parity=1, kind="ccd"):
             pix.append(arr_eq(firsts[i]["pixel"], lasts[i - 1]["pixel_final"]))
         else:
             pix += [e == 0 for e in symnp.asarray(firsts[i]["pixel"]).elems()]
-    if nd_on_path:
+    if not pix:
+        pass  # a single readout: there is no later step whose pixel bucket could be compared (nothing is posted)
+    elif nd_on_path:
         vx.prove(f"C02/buckets/pixel_nondestructive/{tag}", vx.all_of(pix))
     else:
         # the path fixed the flag to False (n >= 2) or never looked at it
